@@ -154,6 +154,15 @@ static void make_work(std::vector<Work> &ws, int m, int n, unsigned seed) {
     int gates[] = {0, 3, 13, 2, 1, 13, 4, 5};
     for (int i = 0; i < m; i++) { ws[i].g = gates[i % 8];
         for (int q = 0; q < 3; q++) { ws[i].in[q].resize(n + 1); for (int j = 0; j <= n; j++) ws[i].in[q][j] = (int32_t) rg(); } }
+    // special values of the rounded input on some items: body that rounds to barb = 0 / to N exactly, mask coefficients that round to 0
+    for (int i = 0; i < m; i++) {
+        int kind = i % 4;                      // 0: random (above)
+        if (kind == 0 || ws[i].g == 13) continue;
+        ws[i].g = (kind == 1) ? 0 : (kind == 2) ? 2 : 0;          // NAND, AND, NAND
+        for (int j = 0; j < n; j++) if (j % 3 == 0) { ws[i].in[0][j] = 0; ws[i].in[1][j] = 0; }
+        ws[i].in[1][n] = 0;
+        ws[i].in[0][n] = (kind == 3) ? (int32_t) 0xA0000000u : (1 << 29);   // NAND: 1/8 - b = 0 (kinds 1), AND: -1/8 + 1/8 = 0 (kind 2), NAND: 1/2 (kind 3)
+    }
 }
 static uint64_t unrelated_fft(unsigned seed, int reps) {   // FFT products of unrelated polynomials on the calling thread; hash of the results
     std::mt19937 rg(seed); const int N = 1024; uint64_t h = 0;
